@@ -30,6 +30,7 @@ class ProcessWorker(Worker):
         self._comms = Pipe()
         self._ctrl_comms = Pipe()
         self._is_child = False
+        self._early_result = None # final result received while the child was still alive (see wait)
         super().__init__(*args, **kwargs)
         assert not self.is_child
         self._comms.child_end.close()
@@ -73,7 +74,18 @@ class ProcessWorker(Worker):
             raise ValueError('A worker cannot wait for itself')
         if not self.is_alive():
             return True
-        self._child.join(timeout)
+        # a child whose final result does not fit in the pipe's buffer blocks while sending it until we read it,
+        # so joining it without reading would deadlock both sides
+        ready = mp.connection.wait([self._comms.parent_end, self._child.sentinel], timeout)
+        if self._comms.parent_end in ready and self._early_result is None:
+            try:
+                self._early_result = self._comms.parent_end.get()
+            except queue.Empty:
+                pass
+            except Exception:
+                logger.debug('Could not deserialize the final result of {}', self, exc_info=1)
+        if ready:
+            self._child.join(timeout)
         alive = self._child.is_alive()
         if not alive:
             self._dead = True
@@ -121,6 +133,7 @@ class ProcessWorker(Worker):
         if self._result is None:
             #assert not self._comms[0].empty()
             #self._comms.child_end.close()
+            self._result = self._early_result
             while True:
                 try:
                     self._result = self._comms.parent_end.get()
